@@ -14,6 +14,7 @@ from fractions import Fraction as Fr
 import common as C
 import exact as X
 import gen as G
+import pipeline as PL
 
 
 def basis(n, j, s):
@@ -97,6 +98,12 @@ def main():
             midx.append(drv.ask("turning_below_pi", kw["nodes"]))
         else:
             midx.append(None)
+    sidx = []
+    for kind, kw in cases:
+        if have_model and kind in ("planted", "closed-form", "half-plane", "nonterminating", "large-turning"):
+            sidx.append(PL.ask_self_intersections(drv, cfg, [[Fr(float(x)) for x in r] for r in kw["nodes"]], fuel=30))
+        else:
+            sidx.append(None)
     replies = drv.run() if drv.lines else []
 
     def run_self(arr):
@@ -113,7 +120,7 @@ def main():
         finally:
             sys.setrecursionlimit(old)
 
-    for (kind, kw), mi in zip(cases, midx):
+    for (kind, kw), mi, si in zip(cases, midx, sidx):
         nodes = kw["nodes"]
         arr = C.farr(nodes)
         exact_nodes = [[Fr(float(x)) for x in r] for r in nodes]
@@ -132,6 +139,15 @@ def main():
         if kind == "turning-angle":
             continue
         st, out = run_self(arr)
+        if si is not None:
+            impl = ("ok", [(float(out[0, k]), float(out[1, k])) for k in range(out.shape[1])], False) if st == "ok" else \
+                ("exc", {"recursion": "RecursionError", "refused": "NotImplementedError"}.get(st, str(out).split(":")[0]))
+            mst, mval = replies[si]
+            model = (mst, (mval, 0)) if mst == "ok" else (mst, mval)
+            # the model runs with fuel 30: the library's recursion limit plays the same role for the non-terminating net
+            same, why = PL.same_result(impl, model, tol=Fr(1, 2 ** 26))
+            if not same and not (kind == "large-turning" and st != "ok"):
+                res.mismatch("self_intersections", rc, str(impl)[:300], str(replies[si])[:300], why)
         if kind == "nonterminating":
             if st == "recursion":
                 res.failure("self-intersections:zero-edge-then-pi-turn", "self_intersections of [(0,0),(0,0),(-1,0)] recurses without bound (RecursionError)", rc)
